@@ -49,7 +49,7 @@ def known_sig(clause, meta, tr):
         return 'MaildirAppendReserialises'
     if clause == 'C07_WellFormed' and meta.get('malformed', '') and \
             meta['malformed'].startswith('atom expected') and \
-            _re.search(r'BODY(STRUCTURE)? \( "[^"]*" ', meta.get('malformed_ctx') or ''):
+            _re.search(r'\( "[A-Za-z0-9.+-]*"[ )]', meta.get('malformed_ctx') or ''):
         return 'EmptyMultipartBodystructure' 
     if meta['kind'] == 'message' and 'BINARY' in meta.get('last_cmd', '') \
             and meta.get('exc_type') in ('binascii.Error', 'builtins.NotImplementedError') \
@@ -163,7 +163,7 @@ def campaign(run, tier: str, prefix: str) -> None:
         'the input quantifier is covered at TOKEN level only: arbitrary and mutated raw byte strings '
         'are not enumerable by a TLA+ model (DESIGN.md section 8)',
         'lines longer than the 64 KiB stream limit are outside the property',
-        'dict backend for IMAP token lines; stored-message half on dict (maildir in thorough)']
+        'dict backend for IMAP token lines; stored-message half on dict and, for a slice, on maildir']
     dumps = {}
     for key, cfg, what in (('cmd', 'CmdTokens_cmd2.cfg', 'cmd tokens <= 2'),
                            ('tmpl', 'CmdTokens_tmpl.cfg', 'grammar-shaped lines, <= 1 mutation'),
@@ -210,10 +210,11 @@ def campaign(run, tier: str, prefix: str) -> None:
     for ln in [('BOGUS',), ('FETCH', 'SEQSET_BAD'), ('SELECT', 'QUOTED_OPEN'), ('LOGIN', 'ATOM')]:
         for st in T.STATES:
             items.append(('line', 'imap-repeat', 'imap', st, ln, T.concretise_line(ln, rng), 7))
-    for backend in (['dict'] if quick else ['dict', 'maildir']):
-        for mt in (msgs if backend == 'dict' else msgs[::8]):
+    for backend in ('dict', 'maildir'):
+        # maildir: a slice (every message is a scratch store of its own)
+        for mt in (msgs if backend == 'dict' else msgs[::6] if quick else msgs[::8]):
             items.append(('message', backend, mt, T.concretise_msg(mt, rng)))
-        for ht in (hdrs if backend == 'dict' else hdrs[::3]):
+        for ht in (hdrs if backend == 'dict' else hdrs[::12] if quick else hdrs[::3]):
             items.append(('message', backend, ht, T.concretise_hdr(ht, rng)))
     indexed = list(enumerate(items))
     nproc = max(1, min(int(os.environ.get('VERIF_C06_WORKERS', '8')), os.cpu_count() or 1))
